@@ -50,7 +50,9 @@ META = {
     "level_text": "Kernel-checked for all dimension expressions, all bindings, all memo states and all sequences "
                   "of origin recordings: lower_correct (the emitted chain, floordiv as Div(Sub(a,Mod(a,b)),b), has the "
                   "JAX value; no proviso), cache_transparent (for memo keys accepted by the decidable check "
-                  "keysConsistent, run on the live keys of every export), origin_sound, export_dim_correct. Whole "
+                  "keysConsistent, run on the live keys of every export), origin_sound, export_dim_correct; over all "
+                  "sequences of scope entries/exits (function bodies, Loop/If bodies): scoped_origin_sound, "
+                  "scope_reuse_sound (a body reused at another call site), eval64_eq_eval (int64 side condition). Whole "
                   "programs (reshape / broadcast / concat / arange / NCHW / function and loop scopes) are validated "
                   "on the lattice {1,2,3,5,7}^k, not proved.",
     "level_note": "Partial only in the program-level part. Trusted: Lean kernel + 3 standard axioms; the "
@@ -63,7 +65,7 @@ META = {
     "design_ref": "DESIGN.md §3 C04",
 }
 
-MODS = ["J2O.Props.C04", "J2O.Lemmas.C04"]
+MODS = ["J2O.Props.C04", "J2O.Props.C04Scope", "J2O.Lemmas.C04"]
 LATTICE = (1, 2, 3, 5, 7)
 
 
@@ -219,6 +221,58 @@ class Instr:
         self.names = Names()
         self.expr_of_key: dict[str, Any] = {}
         self.static_mismatch: list = []
+        # the scope machine (Model/C04Scope.lean): live contexts innermost last, the operations seen so far,
+        # and the live table of a context at the moments it is created / left
+        self.stack: list[int] = []
+        self.ctx_of: dict[int, Any] = {}
+        self.left: set = set()
+        self.sops: list = []
+        self.snaps: list = []
+        self.non_stack: Optional[str] = None
+
+    # ---- scope machine bookkeeping -----------------------------------------------------------
+    def _live_table(self, ctx: Any) -> list:
+        return sorted([key, self.names.of(o.value), int(o.axis)] for key, o in ctx._sym_origin_str.items())
+
+    def _snap(self, k: int, what: str) -> None:
+        self.sops.append({"o": "snap", "id": len(self.snaps)})
+        self.snaps.append({"ctx": k, "what": what, "live": self._live_table(self.ctx_of[k])})
+
+    def _pop(self) -> None:
+        k = self.stack.pop()
+        self._snap(k, "left")
+        self.sops.append({"o": "exit"})
+        self.left.add(k)
+
+    def _touch(self, ctx: Any) -> None:
+        """an operation happens in `ctx`: contexts above it on the stack are finished; an unknown context is a
+        sub-graph context (`make_subgraph_context`): a copy of the innermost live context whose table it holds"""
+        k = id(ctx)
+        self.ctx_of[k] = ctx
+        if k in self.stack:
+            while self.stack[-1] != k:
+                self._pop()
+            return
+        if k in self.left:
+            self.non_stack = self.non_stack or "a finished context became active again"
+        if not self.stack:
+            if ctx._sym_origin_str:
+                self.non_stack = self.non_stack or "the first context starts with a non-empty table"
+            self.stack.append(k)
+            return
+        init = self._live_table(ctx)
+        for depth in range(len(self.stack) - 1, -1, -1):
+            if self._live_table(self.ctx_of[self.stack[depth]]) == init:
+                while len(self.stack) - 1 > depth:
+                    self._pop()
+                break
+        self.sops.append({"o": "sub"})
+        self.stack.append(k)
+        self._snap(k, "created")
+
+    def _finish(self) -> None:
+        while self.stack:
+            self._pop()
 
     def _sess(self, ctx: Any) -> dict:
         k = id(ctx)
@@ -248,9 +302,11 @@ class Instr:
         self._orig_call = L.LowerDimExpr.__call__
         self._orig_rec = C.IRContext.record_symbolic_dim_origin
         self._orig_begin = F.FunctionScope.begin
+        self._orig_end = F.FunctionScope.end
         me = self
 
         def call(lowerer, exprs):
+            me._touch(lowerer.ctx)
             s = me._sess(lowerer.ctx)
             s["lowerer"] = lowerer
             res = me._orig_call(lowerer, exprs)
@@ -268,9 +324,11 @@ class Instr:
             return res
 
         def rec(ctx, dim, value, axis):
+            me._touch(ctx)
             s = me._sess(ctx)
             me._orig_rec(ctx, dim, value, axis)
             ent = me._dim_entry(dim, axis)
+            me.sops.append({"o": "record", "v": me.names.of(value), "dims": [[ent[0], ent[1]]]})
             prod = value.producer()
             s["events"].append({"ev": "bind", "v": me.names.of(value), "dims": [ent],
                                 "producer": prod.op_type if prod is not None else "graph_input"})
@@ -287,9 +345,11 @@ class Instr:
 
         def begin(scope, inputs):
             parent = scope.parent
+            me._touch(parent)
             ptab = [[key, me.names.of(o.value), int(o.axis)] for key, o in parent._sym_origin_str.items()]
             fins = me._orig_begin(scope, inputs)
             s = me._sess(scope.ctx)
+            s["function"] = (str(getattr(scope, "domain", "")), str(getattr(scope, "name", "")))
             # the child table was written directly; our `init` snapshot (taken after) must not count twice
             s["events"] = [e for e in s["events"] if e["ev"] != "init"]
             for fin, vin in zip(fins, inputs):
@@ -303,17 +363,43 @@ class Instr:
                         live = me.expr_of_key.get(key)
                         ents.append([key, axis, ser_expr(live) if live is not None else None])
                 s["events"].append({"ev": "scope", "parent": ptab, "fin": me.names.of(fin), "dims": ents})
+            # scope machine: a new context; its table is what `begin` made of the parent's
+            ck = id(scope.ctx)
+            me.ctx_of[ck] = scope.ctx
+            me.sops.append({"o": "enter", "ins": [{"fin": e["fin"], "dims": [[d[0], d[1]] for d in e["dims"]]}
+                                                  for e in s["events"] if e["ev"] == "scope"]})
+            me.stack.append(ck)
+            me._snap(ck, "begin")
+            # static premise: a function input re-bound as the origin of a dim is annotated with that dim
+            for key, o in scope.ctx._sym_origin_str.items():
+                try:
+                    ann = o.value.shape[int(o.axis)] if o.value.shape is not None else None
+                    lab = None if ann is None else (int(ann) if isinstance(ann, int) else str(getattr(ann, "value", ann)))
+                    if lab not in (None, "None", "") and str(lab) != key:
+                        me.static_mismatch.append({"value": me.names.of(o.value), "axis": int(o.axis),
+                                                   "recorded": key, "annotated": str(lab)})
+                except Exception:
+                    pass
             return fins
+
+        def end(scope, *a, **kw):
+            if id(scope.ctx) in me.stack:
+                me._touch(scope.ctx)
+                me._pop()
+            return me._orig_end(scope, *a, **kw)
 
         L.LowerDimExpr.__call__ = call
         C.IRContext.record_symbolic_dim_origin = rec
         F.FunctionScope.begin = begin
+        F.FunctionScope.end = end
         return self
 
     def __exit__(self, *a):
         self._L.LowerDimExpr.__call__ = self._orig_call
         self._C.IRContext.record_symbolic_dim_origin = self._orig_rec
         self._F.FunctionScope.begin = self._orig_begin
+        self._F.FunctionScope.end = self._orig_end
+        self._finish()
         return False
 
     def real_tables(self) -> dict[int, list]:
@@ -503,6 +589,10 @@ def template_programs() -> list[Prog]:
     add("full_NB", [("B",), ("N",)], lambda xp, x, y: xp.full((y.shape[0], x.shape[0]), 2.0, dtype=x.dtype) * x[None, :])
     add("ones_B_times_arange_N", [("B",), ("N",)],
         lambda xp, x, y: xp.ones((x.shape[0], 1), dtype=x.dtype) * xp.arange(y.shape[0], dtype=x.dtype)[None, :])
+    # two data-dependent extents in one graph: their annotations must not name one and the same dim
+    add("arange_two_lengths", [("B",), ("N",)],
+        lambda xp, x, y: (xp.arange(3 * x.shape[0], dtype=x.dtype) * 2,
+                          xp.arange(x.shape[0] + 2 * y.shape[0], dtype=x.dtype) * 2))
     add("tile2", [("B",)], lambda xp, x: xp.tile(x, 2))
     add("mean_axis0", [("B", "N")], lambda xp, x: x.sum(axis=0) / x.shape[0])
     add("scale_by_dims", [("B", "N")], lambda xp, x: x * (x.shape[0] * 10 + x.shape[1]))
@@ -597,6 +687,139 @@ def scoped_programs() -> list[Prog]:
     return list(_SCOPED)
 
 
+_FNREUSE: dict = {}
+
+FNREUSE_BODIES = ("grid", "dimval", "outer_flat", "arange", "nested", "loop")
+# each pattern = the argument pairs of successive call sites of ONE function; x:(B,), y:(N,), z:(K,).  The FIRST call site
+# is the one whose trace becomes the function body, so both orders are generated: a body traced where two extents were
+# one symbol must not serve a site where they are two, and vice versa
+FNREUSE_PATTERNS = ("xx_xy", "xy_xx", "xx_yy", "yx_xy", "yy_xy_xx", "xy_yx_yy", "xx_yz", "zz_xy_yz")
+
+
+def _define_scope_functions() -> dict:
+    """@onnx_function bodies whose lowering READS run-time extents of BOTH arguments (broadcast target, dim_as_value,
+    reshape target, arange length, a nested call, a Loop body); module attributes, because the function plugin
+    patches `getattr(module, fn.__name__)`."""
+    if _FNREUSE:
+        return _FNREUSE
+    import jax.numpy as jnp
+    from jax import lax
+    from jax._src import core as jc
+    from jax2onnx import onnx_function
+    G = globals()
+
+    def dimval(e, like):
+        return jnp.asarray(jc.dimension_as_value(e)).astype(like.dtype)
+
+    def verif_c04_grid(a, b):
+        return jnp.broadcast_to(a[:, None], (a.shape[0], b.shape[0])) * jnp.sum(b)
+
+    def verif_c04_dimval(a, b):
+        return a.sum() * dimval(a.shape[0] * 10 + b.shape[0], a) + b.sum()
+
+    def verif_c04_outer_flat(a, b):
+        return (a[:, None] * b[None, :]).reshape((a.shape[0] * b.shape[0],))
+
+    def verif_c04_arange(a, b):
+        return jnp.arange(a.shape[0] + 2 * b.shape[0], dtype=a.dtype) * a.sum()
+
+    def verif_c04_nested(a, b):
+        return G["verif_c04_grid"](a, b).sum() + G["verif_c04_grid"](b, b).sum() + G["verif_c04_dimval"](b, a)
+
+    def verif_c04_loop(a, b):
+        def body(i, c):
+            return c + dimval(a.shape[0] * 3 + b.shape[0], c)
+        return lax.fori_loop(0, 2, body, jnp.zeros((), jnp.float32)) + a.sum()
+
+    def verif_c04_mat(a):
+        return a.reshape((a.shape[0] * a.shape[1],)) * dimval(a.shape[0] * 10 + a.shape[1], a)
+
+    def verif_c04_nhwc(a):
+        return a.sum(axis=(1, 2)) * dimval(a.shape[1] * 100 + a.shape[2] * 10 + a.shape[0], a)
+
+    for f in (verif_c04_grid, verif_c04_dimval, verif_c04_outer_flat, verif_c04_arange, verif_c04_nested,
+              verif_c04_loop, verif_c04_mat, verif_c04_nhwc):
+        f.__qualname__ = f.__name__
+        w = onnx_function(f)
+        G[f.__name__] = w
+        _FNREUSE[f.__name__[len("verif_c04_"):]] = f.__name__
+    return _FNREUSE
+
+
+def fnreuse_program(body: str, pattern: str) -> Prog:
+    """one @onnx_function called at several sites whose arguments differ only in the PATTERN of symbols"""
+    _define_scope_functions()
+    G = globals()
+    sites = pattern.split("_")
+    letters = sorted({c for s in sites for c in s})
+    sym_of = {"x": "B", "y": "N", "z": "K"}
+    specs = [(sym_of[c],) for c in letters]
+    syms = [sym_of[c] for c in letters]
+
+    def fn(*xs):
+        env = dict(zip(letters, xs))
+        g = G["verif_c04_" + body]
+        return tuple(g(env[s[0]], env[s[1]]) for s in sites)
+
+    return Prog(f"fnreuse_{body}_{pattern}", fn, specs, syms, std_inputs(specs), kind="scoped")
+
+
+def scope_identity_programs(rng: common.Rng, thorough: bool) -> list[Prog]:
+    """Symbol identity across scoping mechanisms: function reuse across call sites with different symbol
+    patterns, nested functions, Loop / If bodies, NCHW inputs feeding a function."""
+    import jax.numpy as jnp
+    from jax import lax
+    from jax._src import core as jc
+    _define_scope_functions()
+    G = globals()
+    combos = [(b, p) for b in FNREUSE_BODIES for p in FNREUSE_PATTERNS]
+    if thorough:
+        pick = combos
+    else:
+        # every body and every pattern at least once, the identifying-first patterns for every body
+        pick = [(b, "xx_xy") for b in FNREUSE_BODIES]
+        rest = [c for c in combos if c not in pick]
+        pick += [(FNREUSE_BODIES[i % len(FNREUSE_BODIES)], p) for i, p in enumerate(FNREUSE_PATTERNS[1:])]
+        pick += [c for c in rng.sample(rest, 4) if c not in pick]
+    P = [fnreuse_program(b, p) for b, p in pick]
+
+    def dimval(e, like):
+        return jnp.asarray(jc.dimension_as_value(e)).astype(like.dtype)
+
+    def mat_square_then_rect(x, y):       # (B,B) first, (B,N) second: axis pattern inside ONE argument
+        return G["verif_c04_mat"](x), G["verif_c04_mat"](y)
+
+    def mat_rect_then_T(x):               # (B,N) then (N,B)
+        return G["verif_c04_mat"](x), G["verif_c04_mat"](x.T)
+
+    def cond_dims(x, y):                  # If bodies read B and N
+        return lax.cond(x.sum() > 0, lambda: dimval(x.shape[0] * 10 + y.shape[0], x),
+                        lambda: dimval(y.shape[0] * 7 - x.shape[0], x))
+
+    def loop_in_loop_dims(x, y):          # nested Loop bodies inherit the origins of both symbols
+        def outer(i, c):
+            def inner(j, d):
+                return d + dimval(x.shape[0] * 5 + y.shape[0], d)
+            return lax.fori_loop(0, 2, inner, c) + dimval(y.shape[0], c)
+        return lax.fori_loop(0, 2, outer, jnp.zeros((), jnp.float32)) + x.sum() * y.sum()
+
+    def nchw_fn(x):                       # NCHW graph input -> transposed value -> function input
+        return G["verif_c04_nhwc"](x)
+
+    P.append(Prog("fn_mat_square_then_rect", mat_square_then_rect, [("B", "B"), ("B", "N")], ["B", "N"],
+                  std_inputs([("B", "B"), ("B", "N")]), kind="scoped"))
+    P.append(Prog("fn_mat_rect_then_T", mat_rect_then_T, [("B", "N")], ["B", "N"], std_inputs([("B", "N")]),
+                  kind="scoped"))
+    P.append(Prog("cond_body_dims", cond_dims, [("B",), ("N",)], ["B", "N"], std_inputs([("B",), ("N",)]),
+                  kind="scoped"))
+    P.append(Prog("loop_in_loop_dims", loop_in_loop_dims, [("B",), ("N",)], ["B", "N"],
+                  std_inputs([("B",), ("N",)]), kind="scoped"))
+    P.append(Prog("nchw_into_function", nchw_fn, [("B", "H", "W", 3)], ["B", "H", "W"],
+                  std_inputs([("B", "H", "W", 3)]), kind="scoped", kwargs={"inputs_as_nchw": [0]},
+                  feed_perm={0: (0, 3, 1, 2)}))
+    return P
+
+
 def ast_max_abs(a, dims) -> int:
     """largest magnitude of any sub-expression under a concrete binding (Python ints)"""
     k = a[0]
@@ -631,6 +854,13 @@ def random_programs(rng: common.Rng, n: int) -> list[Prog]:
                 asts.append(a)
         out.append(dim_program(f"rand{i}", asts, nsym, rng, rebind=rng.chance(0.25)))
     return out
+
+
+def all_programs(rng: common.Rng, thorough: bool) -> list[Prog]:
+    """the generator of `run` and `replay` (one PRNG; the scope families come last so that the
+    programs generated before them are the same as before)"""
+    progs = corpus_programs(rng) + template_programs() + random_programs(rng, 40 if not thorough else 400)
+    return progs + scope_identity_programs(rng, thorough)
 
 
 # ----------------------------------------------------------------------------- execution helpers
@@ -812,9 +1042,10 @@ def eval_tree(text: str, shapes: dict) -> Optional[int]:
 class AssumedShapes:
     """run-time extents of tensors inside nested graphs, taken from what was recorded for them"""
 
-    def __init__(self, ins: "Instr", binding: dict):
+    def __init__(self, ins: "Instr", binding: dict, sid: Optional[int] = None):
         self.m: dict = {}
-        for s in ins.sessions.values():
+        # names such as f_in_0 recur in every function body: only the chain's OWN context says what they mean
+        for s in ([ins.sessions[sid]] if sid is not None else list(ins.sessions.values())):
             for e in s["events"]:
                 rows = []
                 if e["ev"] == "bind":
@@ -869,7 +1100,7 @@ def classify_and_report(chk: Check, prog: Prog, live: Any, binding: dict, real: 
                     f"{prog.name} at {binding}: chain for {live} gives {plain}, JAX {jaxv}", rep)
 
 
-def origin_probe(model, ins: "Instr", sid: int):
+def origin_probe(model, ins: "Instr", sid: int, extra: tuple = ()):
     """A pruned copy of the exported model whose outputs are the run-time shapes of every tensor that
     was recorded as an origin in the top-level context and still exists in the final graph."""
     import onnx
@@ -882,6 +1113,7 @@ def origin_probe(model, ins: "Instr", sid: int):
         for key, axis, ex in e["dims"]:
             if key is not None and ex is not None:
                 recorded.append((e["v"], axis, key, e.get("producer", "")))
+    recorded += list(extra)
     present = {i.name for i in model.graph.input} | {o for n in model.graph.node for o in n.output}
     names = sorted({r[0] for r in recorded if r[0] in present})
     if not names:
@@ -902,6 +1134,123 @@ def origin_probe(model, ins: "Instr", sid: int):
     return probes, recorded, names
 
 
+# ----------------------------------------------------------------------------- function call sites
+
+
+def _vi_dims(vi) -> Optional[list]:
+    tt = vi.type.tensor_type
+    if not tt.HasField("shape"):
+        return None
+    out = []
+    for d in tt.shape.dim:
+        if d.HasField("dim_value"):
+            out.append(int(d.dim_value))
+        elif d.HasField("dim_param") and d.dim_param:
+            out.append(str(d.dim_param))
+        else:
+            out.append(None)
+    return out
+
+
+def call_sites(model) -> list:
+    """Every node of the exported model (top graph, Loop/If bodies, function bodies) that calls a local function,
+    with the annotated dims of its actual arguments (caller's value_info) and of the callee's formal inputs
+    (the FunctionProto's value_info): the artefact itself, independent of how /repo built it."""
+    import onnx
+    funcs = {(f.domain, f.name): f for f in model.functions}
+    formal: dict = {}
+    for key, f in funcs.items():
+        ann = {vi.name: _vi_dims(vi) for vi in f.value_info}
+        formal[key] = [ann.get(n) for n in f.input]
+    sites: list = []
+
+    def walk(nodes, ann_stack, where, top):
+        for n in nodes:
+            key = (n.domain, n.op_type)
+            if key in funcs:
+                def look(name):
+                    for ann in reversed(ann_stack):
+                        if name in ann:
+                            return ann[name]
+                    return None
+                sites.append({"caller": where, "top": top, "node": n.name, "callee": list(key),
+                              "args": list(n.input), "arg_dims": [look(a) for a in n.input],
+                              "formal_dims": formal[key], "formal_names": list(funcs[key].input)})
+            for a in n.attribute:
+                subs = [a.g] if a.type == onnx.AttributeProto.GRAPH else \
+                    (list(a.graphs) if a.type == onnx.AttributeProto.GRAPHS else [])
+                for g in subs:
+                    ann = {vi.name: _vi_dims(vi) for vi in list(g.input) + list(g.value_info) + list(g.output)}
+                    walk(g.node, ann_stack + [ann], f"{where}/{n.name}:{a.name}", False)
+
+    g = model.graph
+    top_ann = {vi.name: _vi_dims(vi) for vi in list(g.input) + list(g.value_info) + list(g.output)}
+    for init in g.initializer:
+        top_ann.setdefault(init.name, [int(d) for d in init.dims])
+    walk(g.node, [top_ann], "graph", True)
+    for key, f in funcs.items():
+        ann = {vi.name: _vi_dims(vi) for vi in f.value_info}
+        walk(f.node, [ann], f"function {key[0]}:{key[1]}", False)
+    return sites
+
+
+class DimText:
+    """meaning of an annotated dim text (`B`, `2*B + N`) under a binding, through JAX's own parser/evaluator"""
+
+    def __init__(self, syms: list, known: dict):
+        self.syms, self.known, self.cache = syms, known, {}
+
+    def expr(self, text):
+        if isinstance(text, int):
+            return text
+        if text in self.known:
+            return self.known[text]
+        if text not in self.cache:
+            try:
+                from jax import export as jexport
+                scope = next((e.scope for e in self.known.values() if hasattr(e, "scope")), None)
+                self.cache[text] = jexport.symbolic_shape(text, scope=scope)[0] if scope is not None \
+                    else jexport.symbolic_shape(text)[0]
+            except Exception:
+                self.cache[text] = None
+        return self.cache[text]
+
+    def value(self, text, binding: dict) -> Optional[int]:
+        e = self.expr(text)
+        if e is None:
+            return None
+        if isinstance(e, (int, np.integer)):
+            return int(e)
+        try:
+            return int(e._evaluate(dict(binding)))
+        except Exception:
+            return None
+
+
+def callsite_conflicts(sites: list, dt: DimText, bindings: list) -> list:
+    """premise of `scope_reuse_sound` (Props/C04Scope.lean) at every call site, on the annotations: the extent the
+    caller declares for argument i, axis a must be the extent the callee's body was lowered for (its formal input
+    annotation = the symbol whose origin the body re-bound to (f_in_i, a)), for EVERY binding."""
+    out = []
+    for st in sites:
+        for i, (ad, fd) in enumerate(zip(st["arg_dims"], st["formal_dims"])):
+            if ad is None or fd is None or len(ad) != len(fd):
+                continue
+            for ax, (da, df) in enumerate(zip(ad, fd)):
+                if da is None or df is None or da == df:
+                    continue
+                bad = []
+                for b in bindings:
+                    va, vf = dt.value(da, b), dt.value(df, b)
+                    if va is not None and vf is not None and va != vf:
+                        bad.append(b)
+                if bad:
+                    out.append({"caller": st["caller"], "top": st["top"], "node": st["node"], "callee": st["callee"],
+                                "arg_index": i, "arg": st["args"][i], "axis": ax, "call_site_dim": da,
+                                "body_dim": df, "formal": st["formal_names"][i], "bindings": bad})
+    return out
+
+
 def run(chk: Check) -> None:
     import time
     import jax
@@ -909,13 +1258,19 @@ def run(chk: Check) -> None:
     thorough = chk.tier == "thorough"
     proved = prove_robust(chk, MODS, thorough)
 
-    progs = corpus_programs(rng) + template_programs() + random_programs(rng, 40 if not thorough else 400)
+    progs = all_programs(rng, thorough)
     stats = {"programs": 0, "not_exportable": 0, "sessions": 0, "calls": 0, "exprs": 0, "tree_equal": 0,
              "table_equal": 0, "ort_runs": 0, "ort_errors": 0, "eager_jax_runs": 0,
              "numpy_ref_runs": 0, "eval_shape_checks": 0, "jax_eval_checks": 0, "chain_vs_ort_checks": 0,
              "origin_recordings": 0, "origin_runtime_checks": 0, "origins_not_in_final_graph": 0,
              "chain_value_checks": 0, "model_more_pessimistic_than_code": 0, "chain_drift_same_value": 0,
-             "memo_keys_equal": 0, "memo_keys_differ": 0, "key_check_accepted": 0}
+             "memo_keys_equal": 0, "memo_keys_differ": 0, "key_check_accepted": 0,
+             "scope_runs": 0, "scope_ops": 0, "scope_contexts": 0, "scope_max_depth": 0, "scope_snaps_equal": 0,
+             "scope_runs_not_stack_like": 0, "function_sessions": 0, "function_sessions_mapped": 0,
+             "function_formal_origin_checks": 0,
+             "call_sites": 0, "call_site_axes_checked": 0, "call_sites_in_function_bodies": 0,
+             "call_sites_in_subgraphs": 0, "call_site_runtime_checks": 0, "chains_fit_int64": 0}
+    callsite_broken: list = []
     drift: list = []
     key_drift: list = []
     inconsistent: list = []
@@ -956,6 +1311,9 @@ def run(chk: Check) -> None:
             reqs.append(json.dumps({"op": "session", "syms": prog.syms, "bindings": [list(p) for p in full],
                                     "events": evs}))
             owner.append((pi, sid))
+        if ins.snaps:
+            reqs.append(json.dumps({"op": "scoperun", "ops": ins.sops}))
+            owner.append((pi, "scoperun"))
     pre = op_semantics_requests()          # one driver process for everything
     if os.environ.get("VERIF_DUMP_DRIVER_REQS"):
         open(os.environ["VERIF_DUMP_DRIVER_REQS"], "w").write("\n".join(pre + reqs) + "\n")
@@ -963,8 +1321,12 @@ def run(chk: Check) -> None:
     check_op_semantics(chk, raw[:len(pre)])
     answers = [json.loads(a) for a in raw[len(pre):]]
     per_prog: dict[int, list] = {}
+    scope_ans: dict[int, dict] = {}
     for (pi, sid), ans in zip(owner, answers):
-        per_prog.setdefault(pi, []).append((sid, ans))
+        if sid == "scoperun":
+            scope_ans[pi] = ans
+        else:
+            per_prog.setdefault(pi, []).append((sid, ans))
     timing["driver"] = round(time.time() - t0, 1)
 
     # ---- phase C: compare, then ORT vs eager JAX on the lattice ---------------------------------
@@ -1020,6 +1382,10 @@ def run(chk: Check) -> None:
                                             "missing": call["missing"]})
                     if mt == rt:
                         stats["tree_equal"] += 1
+                    if call.get("fits", [True] * (ei + 1))[ei]:
+                        stats["chains_fit_int64"] += 1
+                    else:   # hypothesis of eval64_eq_eval on the lattice: the generator keeps far below 2^63
+                        raise RuntimeError(f"{prog.name}: a node of the chain for {live} leaves int64 on the lattice")
                     if not isinstance(live, int):      # Lean evalJax vs the live JAX evaluator
                         for b, (_memo, _plain, jaxv) in zip(bindings, vals):
                             stats["jax_eval_checks"] += 1
@@ -1027,7 +1393,59 @@ def run(chk: Check) -> None:
                             if lv != jaxv:
                                 raise RuntimeError(f"Lean evalJax {jaxv} != live _DimExpr._evaluate {lv} for {live} at {b}")
                     entries.append({"live": live, "vals": vals, "real": rt, "model": mt, "top": sid == top_sid,
-                                    "R": [None] * len(bindings)})
+                                    "sid": sid, "R": [None] * len(bindings)})
+        # ---- the scope machine: every context's table at creation / exit, model vs live ----------------
+        if pi in scope_ans:
+            sa = scope_ans[pi]
+            stats["scope_runs"] += 1
+            stats["scope_ops"] += len(ins.sops)
+            stats["scope_contexts"] += len(ins.ctx_of)
+            depth, dmax = 1, 1
+            for o in ins.sops:
+                depth += 1 if o["o"] in ("enter", "sub") else (-1 if o["o"] == "exit" else 0)
+                dmax = max(dmax, depth)
+            stats["scope_max_depth"] = max(stats["scope_max_depth"], dmax)
+            if ins.non_stack:
+                stats["scope_runs_not_stack_like"] += 1
+            elif "error" in sa:
+                broken_corr.append({"program": prog.name, "driver_error": sa["error"]})
+            else:
+                for sid_, tab in sa["snaps"]:
+                    want = ins.snaps[int(sid_)]
+                    if tab is not None and sorted(tab) == want["live"]:
+                        stats["scope_snaps_equal"] += 1
+                    else:
+                        broken_corr.append({"program": prog.name, "what": f"scope machine: table of a context when {want['what']}",
+                                            "model": None if tab is None else sorted(tab), "real": want["live"]})
+        # ---- function bodies and their call sites (the exported artefact) ------------------------------
+        dt = DimText(prog.syms, ins.expr_of_key)
+        sites = call_sites(model)
+        stats["call_sites"] += len(sites)
+        stats["call_sites_in_function_bodies"] += sum(1 for st in sites if st["caller"].startswith("function"))
+        stats["call_sites_in_subgraphs"] += sum(1 for st in sites if "/" in st["caller"])
+        stats["call_site_axes_checked"] += sum(len(fd) for st in sites for fd, ad in zip(st["formal_dims"], st["arg_dims"])
+                                               if fd is not None and ad is not None)
+        conflicts = callsite_conflicts(sites, dt, bindings)
+        fprotos = {(f.domain, f.name): f for f in model.functions}
+        for sid, _ans in sess_ans:
+            fkey = ins.sessions[sid].get("function")
+            if fkey is None:
+                continue
+            stats["function_sessions"] += 1
+            fp = fprotos.get(fkey)
+            if fp is None:
+                continue
+            stats["function_sessions_mapped"] += 1
+            ann = {vi.name: _vi_dims(vi) for vi in fp.value_info}
+            for key, vname, axis in real_tables[sid]:
+                if vname in fp.input and ann.get(vname) is not None and axis < len(ann[vname]):
+                    stats["function_formal_origin_checks"] += 1
+                    lab = ann[vname][axis]
+                    if lab is not None and lab != key and any(
+                            dt.value(lab, b) is not None and dt.value(key, b) is not None
+                            and dt.value(lab, b) != dt.value(key, b) for b in bindings):
+                        broken_corr.append({"program": prog.name, "what": "function body origin vs FunctionProto annotation",
+                                            "function": list(fkey), "dim": key, "origin": [vname, axis], "annotated": lab})
         for mm in ins.static_mismatch:
             chk.finding({"kind": "origin_annotation_mismatch", "program": prog.name, **mm},
                         f"origin recorded for {mm['recorded']} at {mm['value']}[{mm['axis']}] whose annotation is "
@@ -1041,11 +1459,23 @@ def run(chk: Check) -> None:
             prog.sym_text = [str(ev_ast(a, list(sd))) for a in prog.asts]
 
         # premise of origin_sound, dynamic part: run-time extent of every recorded origin tensor
+        # ... and of every argument of a function call in the top graph: the callee's body was lowered for the
+        # extents annotated on its formal inputs (premise `hcall`/`hann` of scope_reuse_sound at THIS call site)
+        site_extra = []
+        for st in sites:
+            if not st["top"]:
+                continue
+            for i, fd in enumerate(st["formal_dims"]):
+                for ax, df in enumerate(fd or []):
+                    if df is not None and i < len(st["args"]):
+                        site_extra.append((st["args"][i], ax, df, "call:" + ":".join(st["callee"])))
         probes, recorded, probe_names = None, [], []
         if top_sid is not None:
-            probes, recorded, probe_names = origin_probe(model, ins, top_sid)
-            stats["origin_recordings"] += len(recorded)
+            probes, recorded, probe_names = origin_probe(model, ins, top_sid, tuple(site_extra))
+            stats["origin_recordings"] += len(recorded) - len(site_extra)
             stats["origins_not_in_final_graph"] += sum(1 for r in recorded if r[0] not in probe_names)
+        conflict_hit = False
+        out_ann = [_vi_dims(o) for o in model.graph.output]
 
         sess = ort_session(model)
         eager_pts = set(range(len(full))) if (prog.kind == "dimexpr" or thorough) else \
@@ -1065,8 +1495,8 @@ def run(chk: Check) -> None:
                 for (v, axis, key, producer) in recorded:
                     if v not in shp:
                         continue
-                    stats["origin_runtime_checks"] += 1
-                    want = int(ins.expr_of_key[key]._evaluate(dict(b))) if key in ins.expr_of_key else None
+                    stats["call_site_runtime_checks" if producer.startswith("call:") else "origin_runtime_checks"] += 1
+                    want = dt.value(key, b)
                     got = int(shp[v][axis]) if axis < len(shp[v]) else None
                     if want is not None and got != want:
                         unsound.append({"value": v, "axis": axis, "dim": key, "dim_value": want,
@@ -1099,6 +1529,70 @@ def run(chk: Check) -> None:
                 exp_shapes = [e.shape for e in exp]
             timing["jax"] += time.time() - t1
             chk.count({"program": prog.name, "binding": b}, nontrivial=len(set(b.values())) > 1 or 1 in b.values())
+            ok_shape = outs is not None and [tuple(o.shape) for o in outs] == [tuple(s) for s in exp_shapes]
+            ok_val = outs is not None and (exp is None or (len(exp) == len(outs) and
+                                                           all(same_result(o, e) for o, e in zip(outs, exp))))
+
+            # ONNX: every dim carrying the same dim_param is ONE extent. The labels on the graph outputs against the
+            # shapes JAX computes: a label with a known meaning must have that value, any label one value only
+            conflated = []
+            lab_ext: dict = {}
+            for oi, (ann, se) in enumerate(zip(out_ann, exp_shapes)):
+                if ann is None or len(ann) != len(se):
+                    continue
+                for ax, (lab, ext) in enumerate(zip(ann, se)):
+                    if isinstance(lab, str):
+                        lab_ext.setdefault(lab, []).append([oi, ax, int(ext)])
+            for lab, occ in lab_ext.items():
+                stats["output_label_checks"] = stats.get("output_label_checks", 0) + 1
+                want = dt.value(lab, b)
+                exts = sorted({o_[2] for o_ in occ})
+                if len(exts) > 1 or (want is not None and exts != [want]):
+                    conflated.append({"label": lab, "meaning": want, "outputs_axis_extent": occ})
+            label_explained = False
+            if conflated and ok_shape and ok_val:
+                # the label is wrong but ONNX Runtime did not act on it here: not a failing input of the property
+                stats["output_labels_shared_but_result_right"] = stats.get("output_labels_shared_but_result_right", 0) + 1
+            elif conflated:
+                c0 = conflated[0]
+                label_explained = outs is None
+                chk.finding({"kind": "dim_param_conflated", "label": c0["label"], "program": prog.name, "binding": b},
+                            f"{prog.name} at {b}: the exported model annotates output dims {c0['outputs_axis_extent']} "
+                            f"(output, axis, extent JAX computes) with the one dim_param {c0['label']!r}"
+                            + (f" (= {c0['meaning']})" if c0["meaning"] is not None else "")
+                            + f"; ORT {'rejects the model: ' + ort_err[-160:] if outs is None else 'runs'}",
+                            {"program": prog.name, "binding": b, "specs": [list(s) for s in prog.specs],
+                             "conflated_labels": conflated, "ort_error": ort_err,
+                             "ort_shapes": None if outs is None else [list(o.shape) for o in outs],
+                             "jax_shapes": [list(s) for s in exp_shapes]})
+
+            # a function body used at a call site whose arguments carry other extents than the body was lowered for
+            site_unsound = [u for u in unsound if u["producer"].startswith("call:")]
+            unsound = [u for u in unsound if not u["producer"].startswith("call:")]
+            conf_here = [{k_: v_ for k_, v_ in c.items() if k_ != "bindings"} for c in conflicts if b in c["bindings"]]
+            site_explained = False
+            if (conf_here or site_unsound) and not unsound and not (ok_shape and ok_val):
+                conflict_hit = site_explained = True
+                c0 = conf_here[0] if conf_here else None
+                callee = c0["callee"] if c0 else site_unsound[0]["producer"].split(":")[1:]
+                chk.finding({"kind": "function_body_reused_across_symbol_patterns", "program": prog.name,
+                             "callee": callee[-1] if callee else None, "binding": b},
+                            f"{prog.name} at {b}: the body of function {':'.join(callee)} was lowered for other "
+                            f"extents than this call site passes ("
+                            + (f"argument {c0['arg_index']} axis {c0['axis']} is {c0['call_site_dim']}, the body reads it as "
+                               f"{c0['body_dim']}" if c0 else
+                               f"{site_unsound[0]['value']}[{site_unsound[0]['axis']}] has run-time extent "
+                               f"{site_unsound[0]['runtime_extent']}, the body assumes {site_unsound[0]['dim']} = "
+                               f"{site_unsound[0]['dim_value']}")
+                            + f"); ORT {'error' if outs is None else [tuple(o.shape) for o in outs]} vs JAX {exp_shapes}",
+                            {"program": prog.name, "binding": b, "specs": [list(s) for s in prog.specs],
+                             "call_site_conflicts": conf_here, "call_site_runtime": site_unsound, "ort_error": ort_err,
+                             "ort_shapes": None if outs is None else [list(o.shape) for o in outs],
+                             "jax_shapes": [list(s) for s in exp_shapes],
+                             "ort_head": None if outs is None else [np.asarray(o).reshape(-1)[:8].tolist() for o in outs],
+                             "jax_head": None if exp is None else [np.asarray(e).reshape(-1)[:8].tolist() for e in exp]})
+            elif site_unsound and not unsound:
+                callsite_broken.append({"program": prog.name, "binding": b, "call_site_runtime": site_unsound[:3]})
 
             if unsound:
                 import re as _re
@@ -1115,14 +1609,14 @@ def run(chk: Check) -> None:
                              "jax_head": None if exp is None else [np.asarray(e).reshape(-1)[:8].tolist() for e in exp]})
 
             # real chain value of every lowered expression at this binding
-            explained = bool(unsound)
+            explained = bool(unsound) or site_explained or label_explained
             for en in entries:
                 if isinstance(en["live"], int):
                     continue
                 memo, plain, jaxv = en["vals"][bi]
                 R = eval_tree(en["real"], shp) if en["top"] else None
                 if R is None:         # nested contexts: extents as recorded (the model's assumption)
-                    R = eval_tree(en["real"], AssumedShapes(ins, b))
+                    R = eval_tree(en["real"], AssumedShapes(ins, b, en["sid"]))
                 en["R"][bi] = R
                 stats["chain_value_checks"] += 1
                 if R is None or unsound:
@@ -1133,9 +1627,6 @@ def run(chk: Check) -> None:
                 elif memo != jaxv:
                     stats["model_more_pessimistic_than_code"] += 1
 
-            ok_shape = outs is not None and [tuple(o.shape) for o in outs] == [tuple(s) for s in exp_shapes]
-            ok_val = outs is not None and (exp is None or (len(exp) == len(outs) and
-                                                           all(same_result(o, e) for o, e in zip(outs, exp))))
             if prog.kind == "dimexpr" and outs is not None:
                 vec = np.asarray(outs[0]).reshape(-1)
                 ev = np.asarray(exp[0]).reshape(-1)
@@ -1166,6 +1657,10 @@ def run(chk: Check) -> None:
                              "jax_shapes": [list(s) for s in exp_shapes],
                              "ort_head": None if outs is None else [np.asarray(o).reshape(-1)[:8].tolist() for o in outs],
                              "jax_head": None if exp is None else [np.asarray(e).reshape(-1)[:8].tolist() for e in exp]})
+
+        if conflicts and not conflict_hit:
+            callsite_broken.append({"program": prog.name, "call_site_conflicts":
+                                    [{k_: (v_[:4] if k_ == "bindings" else v_) for k_, v_ in c.items()} for c in conflicts[:4]]})
 
         # structural drift: a chain that differs from the model's but has the model's value on the whole lattice
         for en in entries:
@@ -1204,6 +1699,14 @@ def run(chk: Check) -> None:
                        "key_drift": key_drift[:8], "keys_fail_check": inconsistent[:8],
                        "note": "every chain of these exports still had the JAX value on the whole lattice"},
                       name="memo-keys", no_failing_input=True)
+    chk.info("call_site_premise_broken_without_failing_input", callsite_broken[:5])
+    if callsite_broken and not chk.violations:
+        chk.violation({"correspondence": "a function body is called with arguments whose extents are not the ones the body "
+                                         "was lowered for (premise of scope_reuse_sound) ",
+                       "cases": callsite_broken[:8],
+                       "note": "ORT = JAX on the whole lattice for these programs: the body does not read the "
+                               "conflated extents"},
+                      name="call-site", no_failing_input=True)
     if broken_corr and not chk.violations:
         chk.violation({"correspondence": "live LowerDimExpr / origin recording differs from the Lean model",
                        "cases": broken_corr[:12],
@@ -1238,7 +1741,7 @@ def replay(path: str) -> int:
     seed = int(rep.get("seed", 0))
     rng = common.Rng(seed)
     thorough = rep.get("tier") == "thorough"
-    progs = corpus_programs(rng) + template_programs() + random_programs(rng, 40 if not thorough else 400)
+    progs = all_programs(rng, thorough)
     prog = next((p for p in progs if p.name == name), None)
     if prog is None or "binding" not in rep:
         print("replay: nothing executable recorded (see the JSON above)")
@@ -1265,7 +1768,14 @@ def replay(path: str) -> int:
               "(value, axis, dim, dim value, run-time extent):", still)
         print("reproduced" if still else "not reproduced (all recorded origins are true now)")
         return 1 if still else 0
-    xs, outs = run_ort_prog(sess, prog, rep["binding"])
+    try:
+        xs, outs = run_ort_prog(sess, prog, rep["binding"])
+    except Exception as e:
+        print("specs:", prog.specs, "binding:", rep["binding"])
+        print("ORT : error", str(e)[-300:])
+        print("JAX :", [(np.asarray(v).shape) for v in as_list(prog.fn(*prog.make_inputs(rep["binding"])))])
+        print("reproduced (ONNX Runtime rejects the model at this binding; JAX computes a result)")
+        return 1
     exp = as_list(prog.fn(*xs))
     print("specs:", prog.specs, "binding:", rep["binding"])
     print("ORT :", [(o.shape, np.asarray(o).reshape(-1)[:10].tolist()) for o in outs])
